@@ -291,12 +291,31 @@ func (r *RegionScatterer) scatterRegion(region *core.RegionInfo, group string) *
 
 	targetPeers := make(map[uint64]*metapb.Peer)
 	selectedStores := make(map[uint64]struct{})
+	decided := make(map[uint64]bool) // peer id -> its target store is fixed
 	scatterWithSameEngine := func(peers map[uint64]*metapb.Peer, context engineContext) {
 		for _, peer := range peers {
-			candidates := r.selectCandidates(region, peer.GetStoreId(), selectedStores, context)
-			newPeer := r.selectStore(group, peer, peer.GetStoreId(), candidates, context)
-			targetPeers[newPeer.GetStoreId()] = newPeer
-			selectedStores[newPeer.GetStoreId()] = struct{}{}
+			if decided[peer.GetId()] {
+				// This peer was already told to stay where it is (see below).
+				continue
+			}
+			for {
+				candidates := r.selectCandidates(region, peer.GetStoreId(), selectedStores, context)
+				newPeer := r.selectStore(group, peer, peer.GetStoreId(), candidates, context)
+				storeID := newPeer.GetStoreId()
+				if other := region.GetStorePeer(storeID); other != nil && storeID != peer.GetStoreId() && !decided[other.GetId()] {
+					// The chosen store holds another peer of this region whose placement is not decided yet.
+					// If that peer later had to stay, it would overwrite this one in targetPeers and the
+					// region would lose a peer: let it stay there now, and select again for this peer.
+					targetPeers[storeID] = other
+					selectedStores[storeID] = struct{}{}
+					decided[other.GetId()] = true
+					continue
+				}
+				targetPeers[storeID] = newPeer
+				selectedStores[storeID] = struct{}{}
+				decided[peer.GetId()] = true
+				break
+			}
 		}
 	}
 
